@@ -212,7 +212,6 @@ var c07RawPanics = map[string]string{
 	"goose.Ctx.ifStmt|panic(\"if statement with unexpected kind of else branch\")":         "go/ast documents IfStmt.Else as *BlockStmt or *IfStmt (nil was tested before)",
 	"goose.Ctx.stmt|panic(\"ExprValLocal usage should always be finalized\")":              "stmtInBlock returns finalized=true on every path when usage is ExprValLocal",
 	"goose.Ctx.coqRecurFunc|panic(\"type checker doesn't have func\")":                     "the identifier was resolved through types.Info by both callers before",
-	"goose.Ctx.identExpr|panic(\"\")":                                                      "follows a no-return reporter call: unreachable",
 	"goose.stringLitValue|panic(\"unexpected non-string literal\")":                        "partial helper: its call sites are audited",
 	"goose.stringLitValue|panic(\"unexpected string literal value: \" + …)":                "a string literal accepted by go/parser always unquotes",
 	"goose.sliceElem|panic(fmt.Errorf)":                                                    "partial helper: its call sites are audited",
@@ -547,6 +546,20 @@ func c07Audit(p *Prog, r *Report, prefixed *ssa.Function) {
 					}
 					r.Sites++
 					key := panicKey(p, f, x)
+					// dead: a no-return call (a structured rejection) precedes it in its block, or the block
+					// is unreachable — decided, not taken from the table
+					dead := !p.reachable(f)[b]
+					for _, in0 := range b.Instrs[:i] {
+						if ci, ok := in0.(ssa.CallInstruction); ok {
+							if _, isDefer := in0.(*ssa.Defer); !isDefer && p.NoReturn(calleeOf(ci.Common())) {
+								dead = true
+							}
+						}
+					}
+					if dead {
+						r.OK("R07b", "raw "+blankStrings(key), instrPos(in), "unreachable: follows a no-return call")
+						return
+					}
 					if why, ok := auditFind(c07RawPanics, key); ok {
 						r.OK("R07b", "raw "+key, instrPos(in), "audited: "+why)
 					} else if why, ok := rawPanicByShape(key, shapeUsed); ok {
